@@ -26,6 +26,7 @@ from ..typing import (
 )
 from ..utils import (
     build_and_validate_headers,
+    has_illegal_header_bytes,
     suppress_body,
     UnexpectedMessageError,
     valid_server_name,
@@ -157,6 +158,8 @@ class HTTPStream:
             ):
                 if not isinstance(message["path"], str):
                     raise TypeError(f"{message['path']} should be a str")
+                if has_illegal_header_bytes(message["path"].encode()):
+                    raise ValueError("The push path cannot contain CR, LF or NUL")
                 headers = [(b":scheme", self.scope["scheme"].encode())]
                 for name, value in self.scope["headers"]:
                     if name == b"host":
@@ -177,7 +180,7 @@ class HTTPStream:
                 and self.scope["http_version"] in EARLY_HINTS_VERSIONS
                 and self.state == ASGIHTTPState.REQUEST
             ):
-                headers = [(b"link", bytes(link).strip()) for link in message["links"]]
+                headers = build_and_validate_headers((b"link", link) for link in message["links"])
                 await self.send(
                     InformationalResponse(
                         stream_id=self.stream_id,
